@@ -119,7 +119,7 @@ V_HARNESS(h_fwd)
 V_HARNESS(h_send)
 {
   PROXY_DEV *d = &proxy.dev[0]; PROXY_CLNT *a; PROXY_QUEUE *f, *nxt; struct clnt_obs o0[3], o1[3];
-  unsigned i, k, n_sel = 0, sel[W_MAXLINES]; vbi_bool blocked = FALSE, ok; uint32_t ref0, len_exp;
+  unsigned i, n_sel = 0; int s0, s1; vbi_bool blocked = FALSE, ok; uint32_t ref0, len_exp;
   V_INIT();
   w_init();
   w_device(1);
@@ -129,13 +129,19 @@ V_HARNESS(h_send)
   w_assume_inv();
   a = W_cl[ACT];
   V_ASSUME(a->p_sliced != NULL && a->io.writeLen == 0);                  /* idle, frame pending */
-  V_ASSUME(!VBI_RAW_SERVICES(a->all_services));
+  a->all_services &= ~(unsigned) (VBI_SLICED_VBI_625 | VBI_SLICED_VBI_525);   /* no raw forwarding (masked, not assumed: the message size must fold to a constant) */
   V_ASSUME(a->vbi_count[0] >= 0 && a->vbi_count[1] >= 0 && a->vbi_count[0] + a->vbi_count[1] >= W_MAXLINES);   /* line range fixed at subscription covers the device's */
   f = a->p_sliced; nxt = f->p_next; ref0 = f->ref_count;
-  for (k = 0; k < W_MAXLINES; k++)
-    if ((int) k < f->line_count && (f->lines[k].id & a->all_services) != 0) sel[n_sel++] = k;
+#ifdef LC      /* number of lines in the frame, concrete: it is the size of the message the daemon allocates */
+  f->line_count = LC;
+#endif
+  /* shadow filter, written without symbolic array indices (W_MAXLINES <= 2) */
+  s0 = f->line_count > 0 && (f->lines[0].id & a->all_services) != 0;
+  s1 = W_MAXLINES > 1 && f->line_count > 1 && (f->lines[W_MAXLINES > 1 ? 1 : 0].id & a->all_services) != 0;
+  n_sel = (unsigned) s0 + (unsigned) s1;
   for (i = 0; i < NCL; i++) obs_clnt(&o0[i], W_cl[i]);
-  V_ASSUME(C19.send_ret[0] >= 0);                                        /* the write does not fail (failure = disconnect, C19) */
+  C19.send_ret[0] = 0;            /* the socket takes nothing right now: the message stays in the write buffer, where it is inspected
+                                     (copying it out through the send() log costs > 5 GB in the solver) */
 
   /* ---- proxyd.c:2482-2487 ---- */
   ok = vbi_proxyd_send_sliced(a, &blocked);
@@ -145,17 +151,17 @@ V_HARNESS(h_send)
     pthread_mutex_unlock(&proxy.dev[a->dev_idx].queue_mutex);
   }
 
-  V_ASSERT(ok, "send_succeeds");
+  V_ASSERT(ok && blocked, "send_queued_and_blocked");
   V_ASSERT(C19.send_calls == 1 && C19.sent[0].fd == o0[ACT].sock_fd, "send_one_write_to_own_socket");
   len_exp = (uint32_t) (sizeof(VBIPROXY_MSG_HEADER) + VBIPROXY_SLICED_IND_SIZE(n_sel, 0));
-  V_ASSERT(C19.sent[0].len_asked == len_exp, "send_length");
-  { const uint8_t *m = C19.sent[0].bytes; uint64_t ts; uint32_t nl, nr;
-    V_ASSERT(be32(m) == len_exp && be32(m + 4) == MSG_TYPE_SLICED_IND, "send_header");
-    memcpy(&ts, m + 8, 8); memcpy(&nl, m + 16, 4); memcpy(&nr, m + 20, 4);
-    V_ASSERT(ts == dbl_bits(f->timestamp), "send_capture_timestamp");
-    V_ASSERT(nl == n_sel && nr == 0, "send_line_count");
-    for (k = 0; k < W_MAXLINES; k++)
-      if (k < n_sel) V_ASSERT(0 == memcmp(m + 24 + 64 * k, &f->lines[sel[k]], 64), "send_exactly_the_granted_lines_in_order");
+  V_ASSERT(a->io.writeLen == len_exp && a->io.writeOff == 0 && a->io.freeWriteBuf && a->io.pWriteBuf != NULL && C19.sent[0].len_asked == len_exp, "send_length");
+  { const VBIPROXY_MSG *pm = a->io.pWriteBuf;
+    V_ASSERT(ntohl(pm->head.len) == len_exp && ntohl(pm->head.type) == MSG_TYPE_SLICED_IND, "send_header");
+    V_ASSERT(dbl_bits(pm->body.sliced_ind.timestamp) == dbl_bits(f->timestamp), "send_capture_timestamp");
+    V_ASSERT(pm->body.sliced_ind.sliced_lines == n_sel && pm->body.sliced_ind.raw_lines == 0, "send_line_count");
+    if (s0) V_ASSERT(0 == memcmp(&pm->body.sliced_ind.u.sliced[0], &f->lines[0], 64), "send_exactly_the_granted_lines_in_order");
+    if (s0 && s1) V_ASSERT(0 == memcmp(&pm->body.sliced_ind.u.sliced[1], &f->lines[W_MAXLINES > 1 ? 1 : 0], 64), "send_exactly_the_granted_lines_in_order");
+    if (!s0 && s1) V_ASSERT(0 == memcmp(&pm->body.sliced_ind.u.sliced[0], &f->lines[W_MAXLINES > 1 ? 1 : 0], 64), "send_exactly_the_granted_lines_in_order");
   }
   /* cursor moves on by exactly one frame, the frame loses exactly this reference */
   V_ASSERT(a->p_sliced == nxt, "send_cursor_advances_one");
@@ -167,5 +173,135 @@ V_HARNESS(h_send)
   else { V_ASSERT(d->p_free == f, "send_last_reader_frees_frame"); V_REACH("freed"); }
   V_ASSERT(inv_queue(), "send_inv_queue");
   if (n_sel > 0 && n_sel < (unsigned) f->line_count) V_REACH("filtered");
+  free(a->io.pWriteBuf); a->io.pWriteBuf = NULL;
+  V_END();
+}
+
+/* =====================================================================================================
+ * SEQ: 2 subscribed clients, an empty queue of W_NBUF buffers, k = 4 events E0..E3 (build time: the event ORDER is
+ * the schedule and is enumerated on the grid, all data is symbolic):
+ *   1 frame captured (<= W_MAXLINES symbolic lines, symbolic time stamp)   -> vbi_proxyd_forward_data
+ *   2/3 client 0/1 idle and writable -> the forwarding loop of vbi_proxyd_handle_client_sockets (proxyd.c:2479-2493)
+ *   4/5 client 0/1 disconnects       -> vbi_proxyd_close + unlink
+ * Shadow model: per client the list of frames captured while it was connected and not yet delivered (the oldest is
+ * dropped for the clients still waiting for it when the daemon runs out of buffers).  Assert: the messages handed to
+ * send() for client i are, in capture order, exactly once, those frames filtered to all_services with the capture time.
+ * ===================================================================================================== */
+#ifndef E0
+#define E0 1
+#endif
+#ifndef E1
+#define E1 1
+#endif
+#ifndef E2
+#define E2 2
+#endif
+#ifndef E3
+#define E3 3
+#endif
+#define SQ_F 4
+#ifndef SQ_LINES
+#define SQ_LINES 1
+#endif
+struct sq_frame { int n; uint64_t ts; uint8_t data[W_MAXLINES][64]; };
+static struct sq_frame SQ_fr[SQ_F]; static unsigned SQ_nf;
+static int SQ_pend[2][SQ_F]; static unsigned SQ_np[2];          /* shadow: frame indices pending per client, capture order */
+static int SQ_conn[2];
+
+static void sq_capture(void)
+{
+  struct sq_frame *f = &SQ_fr[SQ_nf]; unsigned i, c, queued = 0, has_free;
+  w_frame();
+  C19.frame_ret = 1; C19.frame_lines = SQ_LINES;        /* concrete line count: it is the size of the message buffer the daemon allocates */
+  f->n = C19.frame_lines; if (f->n < 0) f->n = 0; if (f->n > C19_MAXLINES) f->n = C19_MAXLINES; if (f->n > W_MAXLINES) f->n = W_MAXLINES;
+  memcpy(&f->ts, &C19.frame_ts, 8);
+  for (i = 0; i < W_MAXLINES; i++) memcpy(f->data[i], C19.frame_data[i], 64);
+  /* shadow: out of buffers -> the oldest queued frame is given up by the clients still waiting for it */
+  has_free = proxy.dev[0].p_free != NULL;
+  (void) queued;
+  if (!has_free) {
+    int oldest = -1;
+    for (c = 0; c < 2; c++) if (SQ_conn[c] && SQ_np[c] > 0 && (oldest < 0 || SQ_pend[c][0] < oldest)) oldest = SQ_pend[c][0];
+    for (c = 0; c < 2; c++)
+      if (SQ_conn[c] && SQ_np[c] > 0 && SQ_pend[c][0] == oldest) { for (i = 1; i < SQ_np[c]; i++) SQ_pend[c][i - 1] = SQ_pend[c][i]; SQ_np[c]--; }
+  }
+  vbi_proxyd_forward_data(0);
+  for (c = 0; c < 2; c++) if (SQ_conn[c] && W_cl[c]->all_services != 0) SQ_pend[c][SQ_np[c]++] = (int) SQ_nf;
+  SQ_nf++;
+}
+
+static void sq_writable(unsigned c)
+{
+  PROXY_CLNT *req = W_cl[c]; vbi_bool io_blocked = FALSE; unsigned s0 = C19.send_calls, j, k, s;
+  if (!SQ_conn[c]) return;
+  /* ---- proxyd.c:2479-2493 ---- */
+  while ((req->p_sliced != NULL) && (io_blocked == FALSE)) {
+    if (vbi_proxyd_send_sliced(req, &io_blocked)) {
+      pthread_mutex_lock(&proxy.dev[req->dev_idx].queue_mutex);
+      vbi_proxy_queue_release_sliced(req);
+      pthread_mutex_unlock(&proxy.dev[req->dev_idx].queue_mutex);
+    } else { vbi_proxyd_close(req, FALSE); io_blocked = TRUE; }
+  }
+  /* every pending frame, once, in capture order, filtered, with its time stamp */
+  V_ASSERT(C19.send_calls - s0 == SQ_np[c] && req->p_sliced == NULL, "seq_all_pending_frames_sent_once");
+  for (j = 0; j < SQ_F; j++) {
+    const struct sq_frame *f; const uint8_t *m; unsigned nsel = 0; uint64_t ts; uint32_t nl;
+    if (j >= SQ_np[c]) continue;
+    s = s0 + j; f = &SQ_fr[SQ_pend[c][j]];
+    V_ASSERT(s < C19_SENDLOG && C19.sent[s].fd == req->io.sock_fd, "seq_sent_to_own_socket");
+    m = C19.sent[s].bytes;
+    memcpy(&ts, m + 8, 8); memcpy(&nl, m + 16, 4);
+    V_ASSERT(be32(m + 4) == MSG_TYPE_SLICED_IND && ts == f->ts, "seq_capture_order_and_timestamp");
+    for (k = 0; k < W_MAXLINES; k++) {
+      uint32_t id; memcpy(&id, f->data[k], 4);
+      if ((int) k < f->n && (id & req->all_services) != 0) {
+        V_ASSERT(0 == memcmp(m + 24 + 64 * nsel, f->data[k], 64), "seq_granted_lines_in_order");
+        nsel++;
+      }
+    }
+    V_ASSERT(nl == nsel && C19.sent[s].len_asked == sizeof(VBIPROXY_MSG_HEADER) + VBIPROXY_SLICED_IND_SIZE(nsel, 0), "seq_only_granted_lines");
+    V_REACH("delivered");
+  }
+  SQ_np[c] = 0;
+}
+
+static void sq_disconnect(unsigned c)
+{
+  PROXY_CLNT *a = W_cl[c];
+  if (!SQ_conn[c]) return;
+  vbi_proxyd_close(a, FALSE);
+  if (proxy.clnt_count > 0) proxy.clnt_count -= 1;                       /* proxyd.c:2516-2544, without the service re-computation */
+  if (c == 0) proxy.p_clnts = a->p_next; else W_cl[0]->p_next = a->p_next;
+  if (c == 0 && !SQ_conn[1]) proxy.p_clnts = NULL;
+  free(a);
+  W_gone[c] = 1; SQ_conn[c] = 0; SQ_np[c] = 0;
+}
+
+static void sq_event(int e)
+{
+  if (e == 1) sq_capture(); else if (e == 2) sq_writable(0); else if (e == 3) sq_writable(1);
+  else if (e == 4) sq_disconnect(0); else if (e == 5) sq_disconnect(1);
+  V_ASSERT(inv_queue(), "seq_inv_queue");
+}
+
+V_HARNESS(h_seq)
+{
+  unsigned i;
+  V_INIT();
+  w_init();
+  for (i = 0; i < C19_NIO; i++) C19.send_ret[i] = 0x7fffffff;              /* sockets take everything that is written */
+  w_device(1);
+  V_ASSUME(!VBI_RAW_SERVICES(proxy.dev[0].all_services));
+  for (i = 0; i < 2; i++) {
+    PROXY_CLNT *c = w_client(0, 0);
+    c->state = REQ_STATE_FORWARD; c->io.writeLen = 0; c->io.pWriteBuf = NULL; c->io.sock_fd = 10 + (int) i;
+    c->chn_state.token_state = REQ_TOKEN_NONE; c->chn_status_ind = VBI_PROXY_CHN_NONE;
+    c->all_services &= ~(unsigned) (VBI_SLICED_VBI_625 | VBI_SLICED_VBI_525);
+    c->vbi_count[0] = W_MAXLINES; c->vbi_count[1] = 0;
+    SQ_conn[i] = 1;
+  }
+  w_link();
+  w_queue();                                                                /* NQ = 0: nothing queued, all buffers free */
+  sq_event(E0); sq_event(E1); sq_event(E2); sq_event(E3);
   V_END();
 }
